@@ -15,7 +15,7 @@ RULE = ('deals from Hypothesis (sorted deck + drawn transpositions => voids/long
         'hands_parser(convert_deal()) each equal the original four hands; to_pbn text == independent canonical '
         'renderer (S.H.D.C, ranks high to low, void empty, unknown hand "-"); binary vectors are 52 slots of 0/1 with '
         'slot = card index; JSON lists ascend by card index; the random dealer returns 4 disjoint 13-card hands '
-        'covering the pack. evaluations = round trips. Non-trivial = deal with >=1 void or a partial deal, written '
+        'covering the pack; every decoder is also called a second time after the first result was modified (cards added and removed, as the playing phases do): hands of one deal must not alias each other and the second decode must equal the original. evaluations = round trips. Non-trivial = deal with >=1 void or a partial deal, written '
         'from a first seat other than N; distinct by (deal, first seat).')
 ASSUMPTIONS = ['vf/model/pbn.py renders the PBN 2.1 deal notation']
 
@@ -29,6 +29,25 @@ def plan(tier):
 
 def _same(h, hands):
     return all({be.CARD_IDX[c] for c in h[be.SEAT[s]]} == set(hands[s]) for s in range(4))
+
+
+def _independent(decode, arg, hands, what, case):
+    """The decoded hands are the caller's to change (the playing phases remove played cards from them): changing one
+    decoded hand must change neither another hand of the same deal nor what the next decode of the same text returns."""
+    back = decode(arg)
+    for s in range(4):
+        hs = back[be.SEAT[s]]
+        spare = next(c for c in range(52) if c not in hands[s])
+        hs.add(be.CARD[spare])
+        for c in hands[s][:2]:
+            hs.discard(be.CARD[c])
+        for o in range(4):
+            if o > s:
+                check({be.CARD_IDX[c] for c in back[be.SEAT[o]]} == set(hands[o]),
+                      f'{what}: changing one decoded hand changed another hand of the same deal', case, {'changed': A.SEATS[s], 'affected': A.SEATS[o]})
+    again = decode(arg)
+    check(_same(again, hands), f'{what}: decoding the same encoding again gives a different deal after the first result was used',
+          case, {'got': be.hands_to_ints(again)})
 
 
 def _deal(owner, empty, dtype, stats=None):
@@ -47,6 +66,8 @@ def _deal(owner, empty, dtype, stats=None):
         check(text == exp, 'PBN deal text is not canonical', case, {'got': text, 'expected': exp})
         back = guard('convert_pbn raises on to_pbn output', case, Hands.convert_pbn, text)
         check(_same(back, hands), 'PBN round trip changed the deal', case, {'text': text, 'got': be.hands_to_ints(back)})
+        if first == len(hands[0]) % 4:
+            guard('convert_pbn raises on to_pbn output', case, _independent, Hands.convert_pbn, text, hands, 'PBN', dict(case, text=text))
         if stats is not None:
             stats.evaluated()
             voids = any(len(h) == 13 and len({c // 13 for c in h}) < 4 for h in hands)
@@ -60,6 +81,7 @@ def _deal(owner, empty, dtype, stats=None):
               'binary tuple is not the 52-slot indicator of the hand', case, {'seat': A.SEATS[s]})
     back = guard('convert_binary raises', case, Hands.convert_binary, b)
     check(_same(back, hands), 'binary tuple round trip changed the deal', case, {'got': be.hands_to_ints(back)})
+    guard('convert_binary raises', case, _independent, Hands.convert_binary, b, hands, 'binary tuples', case)
     case = dict(base, dtype=dtype)
     nb = guard('to_np_binary raises', case, H.to_np_binary, getattr(np, dtype) if dtype != 'bool' else np.bool_)
     for s in range(4):
@@ -68,6 +90,7 @@ def _deal(owner, empty, dtype, stats=None):
               'numpy vector is not the 52-slot indicator of the hand', case, {'seat': A.SEATS[s]})
     back = guard('convert_np_binary raises', case, Hands.convert_np_binary, nb)
     check(_same(back, hands), 'numpy round trip changed the deal', case, {'got': be.hands_to_ints(back)})
+    guard('convert_np_binary raises', case, _independent, Hands.convert_np_binary, nb, hands, 'numpy vectors', case)
     nb0 = guard('to_np_binary raises', base, H.to_np_binary)
     check(str(nb0[be.SEAT[0]].dtype) == 'int32', 'default numpy dtype is not int32', base)
     case = dict(base)
@@ -77,6 +100,7 @@ def _deal(owner, empty, dtype, stats=None):
         check(got == PL.fmt_cards(hands[s]), 'JSON card list is not ascending by card index', case, {'seat': A.SEATS[s], 'got': got})
     back = guard('hands_parser raises', case, hands_parser, j)
     check(_same(back, hands), 'JSON round trip changed the deal', case)
+    guard('hands_parser raises', case, _independent, hands_parser, j, hands, 'JSON card lists', case)
     check(H == be.hands_from_owner(owner), 'Hands equality', case)
     check(_same(H, hands), 'an encoder modified the deal', case)
     if stats is not None:
